@@ -297,6 +297,10 @@ func (w *world) settle() {
 			w.note("S> %v%s", f, extra)
 		}
 	}
+	if w.conn.Cl.PeerGone() && !w.led.ConnClosed {
+		w.led.SubjClosedConn()
+		w.note("S> (connection closed)")
+	}
 	for _, id := range w.hids() {
 		h := w.hs[id]
 		h.mu.Lock()
